@@ -449,14 +449,11 @@ int reb_simulation_remove_particle(struct reb_simulation* const r, int index, in
             if(r->free_particle_ap){
                 r->free_particle_ap(&r->particles[index]);
             }
-            if(index<r->N_active){
-                // An active particle is removed. Keep the active particles contiguous:
-                // the last active particle fills the hole, the last particle fills its slot.
-                r->N_active--;
-                r->particles[index] = r->particles[r->N_active];
-                index = r->N_active;
-            }
 		    r->particles[index] = r->particles[r->N];
+            if(r->N_active>(int)r->N){
+                // N_active must never exceed N (integrators loop over the first N_active particles).
+                r->N_active = r->N;
+            }
         }
 	}
 
